@@ -165,8 +165,9 @@ theorem multiPolygon_exact (s : Simplifier α) (mp out : List (List (List (Pt α
 
 /-- The generic `Simplify` on every kind and any collection depth (induction over `Geom`): each member
     vertex list is the result of `runSimplify` on the corresponding input list and a valid simplification
-    of it (`RunRel`); rings / polygons stay or vanish exactly by `keepRings` / `keepPolys`; collections
-    keep their length; empty results are nil interfaces. -/
+    of it (`RunRel`); rings / polygons stay or vanish exactly by `keepRings` / `keepPolys`; every member of
+    a collection has a result and the collection that comes back holds exactly the non-nil ones, in
+    order; empty results (a collection none of whose members is left included) are nil interfaces. -/
 theorem simplifyG_good (s : Simplifier α) (hs : GoodS s) (g : Geom α) (o : OGeom α) (h : simplifyG s g = .ok o) :
     ValidOut (RunRel s) g o := simplifyG_good' s hs g o h
 
@@ -207,7 +208,8 @@ theorem visSimplifyP_eq (thr : Option α) (toKeep : Nat) (ls : List (Pt α)) (ar
 theorem simplifyO_geom (s : Simplifier α) (g : Geom α) : simplifyO s (.geom g) = simplifyG s g :=
   simplifyO_geom' s g
 
-/-- … and a collection without nil members is `simplifyG`'s collection. -/
+/-- … and a collection without nil members is `simplifyG`'s collection (both drop the members whose
+    result is a nil interface). -/
 theorem simplifyO_coll_geoms (s : Simplifier α) (gs : List (Geom α)) :
     simplifyO s (.coll (gs.map .geom)) = simplifyG s (.collection gs) := simplifyO_coll_geoms' s gs
 
